@@ -107,6 +107,35 @@ func GenSeq(t *rapid.T) SeqCase {
 			Op{S: s2, Kind: "walk", Fid: 3 + uint32(s2%2), Newfid: 1 + uint32(s2%2)*0, Names: nil},
 		)
 	}
+	if rapid.IntRange(0, 3).Draw(t, "tripleblock") == 0 {
+		// a directory with a child, held through three fids (the third may sit on the child);
+		// it is removed through the first, a second remove is refused, the third is still used
+		s := rapid.IntRange(0, c.Sessions-1).Draw(t, "ts")
+		s2 := rapid.IntRange(0, c.Sessions-1).Draw(t, "ts2")
+		s3 := rapid.IntRange(0, c.Sessions-1).Draw(t, "ts3")
+		dn := rapid.SampledFrom([]string{"c", "a"}).Draw(t, "tdn")
+		onChild := rapid.Bool().Draw(t, "tchild")
+		third := []string{dn}
+		if onChild {
+			third = []string{dn, "b"}
+		}
+		c.Ops = append(c.Ops,
+			Op{S: s, Kind: "walk", Fid: 0, Newfid: 1},
+			Op{S: s, Kind: "create", Fid: 1, Name: dn, Dir: true},
+			Op{S: s, Kind: "walk", Fid: 1, Newfid: 2},
+			Op{S: s, Kind: "create", Fid: 2, Name: "b", Dir: rapid.Bool().Draw(t, "tbdir"), Mode: 2},
+			Op{S: s, Kind: "clunk", Fid: 2},
+			Op{S: s2, Kind: "walk", Fid: 0, Newfid: 3, Names: []string{dn}},
+			Op{S: s3, Kind: "walk", Fid: 0, Newfid: 4, Names: third},
+			Op{S: s, Kind: "remove", Fid: 1},
+			Op{S: s2, Kind: "remove", Fid: 3},
+		)
+		if onChild {
+			c.Ops = append(c.Ops, Op{S: s3, Kind: "walk", Fid: 4, Newfid: 4, Names: []string{".."}}, Op{S: s3, Kind: "list", Fid: 4}, Op{S: s3, Kind: "walk", Fid: 4, Newfid: 2, Names: []string{"b"}})
+		} else {
+			c.Ops = append(c.Ops, Op{S: s3, Kind: "walk", Fid: 4, Newfid: 2, Names: []string{"b"}}, Op{S: s3, Kind: "list", Fid: 4})
+		}
+	}
 	if rapid.IntRange(0, 1).Draw(t, "fileblock") == 0 {
 		s := rapid.IntRange(0, c.Sessions-1).Draw(t, "fs")
 		d1 := rapid.SampledFrom(datas[1:]).Draw(t, "fd1")
